@@ -369,8 +369,9 @@ SHAPE = Shape()
 class Obj:
     """An opaque object (model, config ...): attributes and items are again opaque; as a scalar it is an atom."""
 
-    def __init__(self, name):
+    def __init__(self, name, attrs=None):
         self.name = name
+        self.attrs = attrs or {}
 
     def __repr__(self):
         return f"<obj {self.name}>"
@@ -431,6 +432,7 @@ class Interp:
         self.methods = methods or {}  # name -> FunctionDef for self.method(...) inlining
         self.cls_name = cls_name
         self.thresholds_seen = []  # (lhs poly, op, rhs poly) for every decided comparison
+        self.attr_sets = []  # attribute stores on non-self objects, in order (shared with sub-interpreters)
         self.steps = 0
         self.max_steps = max_steps
 
@@ -445,6 +447,7 @@ class Interp:
     def call_function(self, fnode, args, kwargs=None, bind_self=False):
         sub = Interp(self.env, self.selfattrs, self.region, self.methods, self.cls_name, externals=self.externals)
         sub.thresholds_seen = self.thresholds_seen
+        sub.attr_sets = self.attr_sets
         params = [a.arg for a in fnode.args.posonlyargs + fnode.args.args]
         if bind_self and params and params[0] == "self":
             params = params[1:]
@@ -503,8 +506,19 @@ class Interp:
                         self.env[c.func.value.id].append(v)
                     else:
                         self.env[c.func.value.id].extend(v)
-                elif A.call_attr(c) in self.externals:
+                elif A.call_attr(c) in self.externals or ("." + (A.call_attr(c) or "")) in self.externals:
                     self.eval(c)
+        elif isinstance(st, ast.Try):
+            # the normal (non-raising) path: body, else, finally
+            self.exec_block(st.body)
+            self.exec_block(st.orelse)
+            self.exec_block(st.finalbody)
+        elif isinstance(st, ast.With):
+            for it in st.items:
+                v = self.eval(it.context_expr) if A.call_attr(it.context_expr) in self.externals else Obj(A.short(it.context_expr, 30))
+                if it.optional_vars is not None:
+                    self.assign(it.optional_vars, v)
+            self.exec_block(st.body)
         elif isinstance(st, ast.FunctionDef):
             self.env[st.name] = Closure(st, self)
         elif isinstance(st, ast.Raise):
@@ -522,6 +536,17 @@ class Interp:
                 raise Undecided("tuple unpacking of a non-tuple")
             for a, b in zip(t.elts, v):
                 self.assign(a, b)
+        elif isinstance(t, ast.Subscript):
+            base = self.eval(t.value)
+            if isinstance(base, list):
+                i = int(to_poly(self.eval(t.slice)).const_value())
+                base[i] = v
+            elif isinstance(base, dict):
+                base[self.eval(t.slice)] = v
+            else:
+                raise Undecided(f"item assignment on {type(base).__name__}")
+        elif isinstance(t, ast.Attribute):
+            self.attr_sets.append((A.dotted(t), v))  # e.g. pars.requires_grad = True: recorded, no effect on the value
         else:
             raise Undecided(f"assignment target {A.short(t, 40)}")
 
@@ -616,6 +641,8 @@ class Interp:
                 except Undecided:
                     basev = None
                 if isinstance(basev, Obj):
+                    if e.attr in basev.attrs:
+                        return basev.attrs[e.attr]
                     return Obj(f"{basev.name}.{e.attr}")
             if e.attr == "shape":
                 return SHAPE
@@ -757,6 +784,15 @@ class Interp:
             xa = [self.eval(a) for a in e.args]
             xk = {k.arg: self.eval(k.value) for k in e.keywords if k.arg}
             return self.externals[name](xa, xk)
+        if isinstance(f, ast.Call):
+            callee = self.eval(f)
+            xa = [self.eval(a) for a in e.args]
+            xk = {k.arg: self.eval(k.value) for k in e.keywords if k.arg}
+            if isinstance(callee, PyFunc):
+                return callee.f(xa, xk)
+            if isinstance(callee, Closure):
+                return self.call_function(callee.node, xa, xk)
+            raise Undecided("call of a computed callee")
         if isinstance(f, ast.Name) and isinstance(self.env.get(f.id), PyFunc):
             xa = [self.eval(a) for a in e.args]
             xk = {k.arg: self.eval(k.value) for k in e.keywords if k.arg}
@@ -773,6 +809,8 @@ class Interp:
             if isinstance(recv, Obj):
                 xa = [to_poly(self.eval(a)) for a in e.args]
                 return fn(f.attr, Poly.atom(recv.name), *xa)
+            if isinstance(recv, Poly) and f.attr in ("detach", "numpy", "clone", "cpu", "item", "copy"):
+                return recv
             if isinstance(recv, dict) and f.attr in ("get", "pop", "setdefault"):
                 k = self.eval(e.args[0])
                 if k in recv:
@@ -899,8 +937,27 @@ class Interp:
             if isinstance(s, (list, tuple)):
                 return list(s) if name == "list" else tuple(s)
             raise Undecided("list()")
+        if name == "getattr" and isinstance(f, ast.Name) and len(args) >= 2:
+            o, nm = ev(args[0]), ev(args[1])
+            if isinstance(o, Obj) and isinstance(nm, str):
+                if nm in o.attrs:
+                    return o.attrs[nm]
+                if len(args) > 2:
+                    return ev(args[2])
+                return Obj(f"{o.name}.{nm}")
+            raise Undecided("getattr")
         if name == "bool":
             return self.truth(ev(args[0]))
+        if name == "dict" and isinstance(f, ast.Name):
+            d = dict(ev(args[0])) if args else {}
+            for k2, v2 in kw.items():
+                d[k2] = ev(v2)
+            return d
+        if name == "gather":
+            src, idx = ev(args[0]), ev(args[1])
+            if isinstance(src, (list, tuple)) and isinstance(idx, (list, tuple)):
+                return [src[int(to_poly(i).const_value())] for i in idx]
+            return fn("gather", to_poly(src), to_poly(idx))
         if name == "isinstance":
             raise Undecided("isinstance")
         raise Undecided(f"call {A.short(e.func, 40)}")
